@@ -26,7 +26,7 @@
 EXTENDS FBRef, Json
 SE == INSTANCE SequencesExt
 
-CONSTANTS Targets,      \* build_file targets (prefix-free set of paths)
+CONSTANTS Targets,      \* build_file targets (prefix-free except in the MC_self* configurations)
           QPaths,       \* paths that queries may ask about
           ExtPaths,     \* paths that external mutations may touch
           Kinds,        \* query kinds
@@ -216,6 +216,18 @@ DoWrite(stmt) ==
   LET e == [ev |-> "write", c |-> stmt.c, sz |-> stmt.sz, mt |-> stmt.mt]
   IN /\ s' = Apply(s, e) /\ bad' = Note(Check(s, e)) /\ UNCHANGED preds
 
+(* The disk under the view (only needed when Targets is not prefix-free, i.e. when a function can treat *)
+(* its own target as a directory): nested calls below the function's own target that passed set-up made *)
+(* that path a directory - it lingers on disk until the build ends even if they failed - so the         *)
+(* function's own open() fails; so does the open() of a function whose target lies directly below the   *)
+(* already written target of the enclosing function.                                                    *)
+DirAtTarget(fr) == \E r \in AllRecs(fr.subs) : r.k = "bf" /\ ~r.sf /\ fr.p \in ProperAnc(r.p)
+WriteFails(st) ==
+  LET fr == Top(st) IN
+  IF DirAtTarget(fr) THEN "IsADirectoryError"
+  ELSE IF \E w \in WrittenTargets(st) : w \in ProperAnc(fr.p) THEN "NotADirectoryError"
+  ELSE ""
+
 (* properties of the reuse rule, evaluated when an executed call ends *)
 RECURSIVE NoSF(_)
 NoSF(ops) == \A i \in DOMAIN ops : ops[i].k = "q" \/ (~ops[i].sf /\ NoSF(ops[i].subs))
@@ -253,17 +265,20 @@ ReuseVerdict(sEnd, pred, newrec, sBefore) ==
 DoEnd(stmt) ==
   LET fr == Top(s)
       lastErr == IF LastRaised(fr) THEN "UserError" ELSE ""
+      xerr == IF stmt.s = "wfail" THEN stmt.err ELSE "UserError"     \* class of the exception that ends the function
       e1 == [ev |-> "fn_end", out |-> IF stmt.s = "ret" THEN "return" ELSE "raise",
-             v |-> IF stmt.s = "ret" THEN TStr("r") ELSE TNone, x |-> IF stmt.s = "ret" THEN 0 ELSE 1,
-             prop |-> stmt.s = "prop", err |-> IF stmt.s = "ret" THEN "" ELSE "UserError"]
+             v |-> IF stmt.s = "ret" THEN TStr("r") ELSE TNone,
+             x |-> IF stmt.s \in {"ret", "wfail"} THEN 0 ELSE 1,
+             prop |-> stmt.s = "prop", err |-> IF stmt.s = "ret" THEN "" ELSE xerr]
       s1 == Apply(s, e1)
   IN IF Len(s.stack) > 1 THEN
        LET ok == stmt.s = "ret" /\ (fr.kind = "sb" \/ fr.wrote # NilNode)
            e2 == [ev |-> IF fr.kind = "bf" THEN "bf_end" ELSE "sb_end", inv |-> TRUE,
                   out |-> IF ok THEN "ok" ELSE "raised",
-                  err |-> IF ok THEN "" ELSE IF stmt.s = "ret" THEN "RuntimeError" ELSE "UserError",
+                  err |-> IF ok THEN "" ELSE IF stmt.s = "ret" THEN "RuntimeError" ELSE xerr,
                   same |-> ~ok /\ stmt.s # "ret", ret |-> IF ok THEN TStr("r") ELSE TNone,
-                  real |-> IF ok THEN "file" ELSE "none", fault |-> FALSE]
+                  real |-> IF ok THEN "file" ELSE IF fr.kind = "bf" /\ DirAtTarget(fr) THEN "dir" ELSE "none",
+                  fault |-> FALSE]
            s2 == Apply(s1, e2)
            newrec == Top(s2).subs[Len(Top(s2).subs)]
            rv == ReuseVerdict(s2, preds[Len(preds)], newrec, s)
@@ -295,7 +310,8 @@ Step ==
        /\ hist' = Append(hist, [h |-> "stmt", st |-> stmt, lvl |-> Level(s)])
        /\ CASE stmt.s = "q" -> DoQuery(stmt)
             [] stmt.s \in {"bf", "sb"} -> DoCall(stmt)
-            [] stmt.s = "write" -> DoWrite(stmt)
+            [] stmt.s = "write" -> IF WriteFails(s) = "" THEN DoWrite(stmt)
+                                   ELSE DoEnd([s |-> "wfail", err |-> WriteFails(s)])
             [] OTHER -> DoEnd(stmt)
   /\ UNCHANGED <<ne, nc, xc>>
 
@@ -321,6 +337,12 @@ V_tiny == {TNone, TInt("1")}
 Q_q == {<<"d">>, <<"d", "y">>}
 X_q == {<<"d">>, <<"d", "y">>, <<"k">>}
 V_none == {TNone}
+T_self == {<<"d">>, <<"d", "y">>}          \* not prefix-free: d is a target and the parent of a target
+Q_self == {<<"d">>}
+X_self == {<<"d">>, <<"d", "y">>}
+T_simself == {<<"d">>, <<"d", "y">>, <<"d", "y", "z">>, <<"x">>}
+Q_simself == {<<"d">>, <<"d", "y">>, <<"x">>, <<"d", "y", "z">>}
+X_simself == {<<"d">>, <<"d", "y">>, <<"x">>}
 T_sim == {<<"x">>, <<"d", "y">>, <<"d", "e", "z">>}
 Q_sim == {<<"x">>, <<"d">>, <<"d", "y">>, <<"d", "e">>, <<"d", "e", "z">>, <<"u">>}
 X_sim == {<<"x">>, <<"d">>, <<"d", "y">>, <<"d", "e">>, <<"d", "e", "z">>, <<"u">>, <<"d", "u">>, <<"k">>}
